@@ -28,6 +28,8 @@ const int64_t DAY = 86400;
 // ops
 //   al <kind 0 weekly,1 oneshot,2 workday,3 cron> <sod> <mask7 | workday flag | cron shape> <tz_minutes> <c1> <c2> <c3>
 //   sd <day_offset> <is_workday>                      special day of the calendar (relative to the start day)
+//   reinit <dt_s> <i> <sod> <a> <c1> <c2> <c3> <bad_first>   the alarm is disabled, initialised again with another configuration of its kind
+//                       (a cron alarm first gets a string that is rejected half-way, if bad_first) and enabled: only the last accepted one counts
 //   en|dis|refresh|remain <dt_s> <i>        skew <dt_s> <ms>        jump <dt_s> <seconds> <refresh_after>      calmask <dt_s> <mask>
 void generate(sim::Rng &r, uint64_t seed, const std::string &tier, sim::Plan &p) {
   bool thorough = tier == "thorough";
@@ -80,7 +82,11 @@ void generate(sim::Rng &r, uint64_t seed, const std::string &tier, sim::Plan &p)
     long dt = dts[r.below(far ? 8 : 7)];
     unsigned y = (unsigned)r.below(100);
     long i = (long)r.below((uint64_t)nal);
-    if (y < 15) { op.kind = "dis"; op.a = {dt, i}; }
+    if (y < 6) {
+      long sod = r.chance(300) ? r.pick((const long[]){0, 1, 86399, 43200}) : r.range(0, 86399);
+      op.kind = "reinit"; op.a = {dt, i, sod, r.chance(500) ? r.range(0, 10) : (long)r.below(127) + 1, r.range(0, 59), r.range(0, 23), r.range(1, 28), r.chance(400) ? 1 : 0};
+    }
+    else if (y < 15) { op.kind = "dis"; op.a = {dt, i}; }
     else if (y < 30) { op.kind = "en"; op.a = {dt, i}; }
     else if (y < 40) { op.kind = "refresh"; op.a = {dt, i}; }
     else if (y < 60) { op.kind = "remain"; op.a = {dt, i}; }
@@ -300,8 +306,40 @@ void apply(const sim::Op &op) {
   if (!s.defined || !s.init_ok) return;
   int64_t now_local = wall_ms() / 1000 + s.spec.tz_s;
   sim::relevant();
+  if (k == "reinit") {
+    if (s.uncertain) return;          // after a wall-clock jump nobody has refreshed yet: leave that situation to the other ops
+    if (s.enabled) { s.alarm->disable(); s.enabled = false; }
+    s.expect_local = -1; s.uncertain = false; s.kept_target = -1; s.last_fired_instant = -1;
+    Spec ns; ns.kind = s.spec.kind; ns.tz_s = s.spec.tz_s;
+    ns.sod = std::max(0L, std::min(86399L, op.arg(2))); ns.arg = op.arg(3);
+    bool ok = false;
+    if (ns.kind == 0) { ns.arg &= 127; if (!ns.arg) ns.arg = 1; std::string m; for (int b = 0; b < 7; ++b) m.push_back(((ns.arg >> b) & 1) ? '1' : '0'); ok = dynamic_cast<WeeklyAlarm *>(s.alarm)->initialize((int)ns.sod, m); }
+    else if (ns.kind == 1) ok = dynamic_cast<OneshotAlarm *>(s.alarm)->initialize((int)ns.sod);
+    else if (ns.kind == 2) { ns.arg = (ns.arg & 1) ? 1 : 0; ok = dynamic_cast<WorkdayAlarm *>(s.alarm)->initialize((int)ns.sod, &W.cal, ns.arg != 0); }
+    else {
+      auto *ca = dynamic_cast<CronAlarm *>(s.alarm);
+      if (op.arg(7)) { if (ca->initialize("0 15 3 * * 9")) sim::violation("C20/invalid-expression-accepted", "a cron expression with day-of-week 9 was accepted"); sim::probe("rejected_expressions"); }
+      build_cron(ns, ((op.arg(3) % 11) + 11) % 11, std::max(0L, op.arg(4)), std::max(0L, op.arg(5)), op.arg(6));
+      ok = ca->initialize(ns.cron);
+    }
+    if (!ok) { sim::violation("C20/initialize-failed", sim::fmt("initialize() rejected a valid configuration (kind %d) on an alarm that had been configured before", ns.kind)); return; }
+    s.spec = ns;
+    sim::probe("reinitialised_alarms");
+    if (s.spec.kind != 1 && ref_next(s.spec, W.mcal, now_local) < 0) return;
+    if (!s.alarm->enable()) { sim::violation("C20/enable-failed", sim::fmt("enable() of alarm %d (kind %d) failed after it was initialised again", i, s.spec.kind)); return; }
+    s.enabled = true;
+    model_arm(i, now_local);
+    sim::trace("reinit %d expect_local=%ld", i, (long)s.expect_local);
+    return;
+  }
   if (k == "en") {
-    if (s.enabled) return;
+    if (s.enabled) {
+      // enable() of an alarm that is already running: whatever it answers, the pending instant stays the one it waits for
+      s.alarm->enable();
+      if (!s.alarm->isEnabled()) sim::violation("C20/disabled-by-second-enable", sim::fmt("alarm %d is no longer enabled after a second enable()", i));
+      sim::probe("enable_while_running");
+      return;
+    }
     if (s.spec.kind != 1 && ref_next(s.spec, W.mcal, now_local) < 0) return;   // nothing to wait for within the horizon: not exercised
     bool ok = s.alarm->enable();
     if (!ok) { sim::violation("C20/enable-failed", sim::fmt("enable() of alarm %d (kind %d) failed although a matching instant exists", i, s.spec.kind)); return; }
